@@ -205,6 +205,22 @@ func (bq *Queue[Q]) Put(element Q) error {
 	return nil
 }
 
+// Notify tells the queue that the chain has moved forward by other means than
+// this queue (consensus, RPC, another queue): elements queued behind the new
+// height may be ready to be added now. It never blocks.
+func (bq *Queue[Q]) Notify() {
+	bq.queueLock.Lock()
+	defer bq.queueLock.Unlock()
+	if bq.discarded.Load() {
+		return
+	}
+	select {
+	case bq.checkBlocks <- struct{}{}:
+	default:
+		// it's already busy processing elements
+	}
+}
+
 // LastQueued returns the index of the last queued element and the queue's capacity
 // left.
 func (bq *Queue[Q]) LastQueued() (uint32, int) {
